@@ -71,7 +71,7 @@ CHECKS['C14'] = dict(check='c14', engine='E4-simfs-fault-enumeration', category=
 E2_NOTE = ('trusted base: the reference unroller / snapshot in checks/e2.py encode the statement; crash+restart is modelled as '
            'dropping every object and loading the instance directory again; the harness plays the controller\'s part of an '
            'iteration (working directories, task output files); sampled histories, k up to 25')
-CHECKS['C05'] = dict(check='c05', engine='E2-history-restart-sim', category='exploration', design='§3 C05',
+CHECKS['C05'] = dict(check='c05', also=['c05rt'], engine='E2-history-restart-sim', category='exploration', design='§3 C05',
                      technique='deterministic simulation of iteration histories with crash+reload faults, graph/placeholders/state/resolve() vs independent reference unroller',
                      text='generated DoWhile packages driven through k (up to 25, always crossing 10 in a share of runs) real '
                           'instantiate_dowhile_next_iteration calls with seeded crash+reload points; after every step node set, '
@@ -108,8 +108,10 @@ def main():
         c = CHECKS[pid]
         checks.append({
             'property_id': pid,
-            'quick_cmd': './run %s --tier quick' % c['check'],
-            'thorough_cmd': './run %s --tier thorough' % c['check'],
+            'quick_cmd': ' && '.join('./run %s --tier quick%s' % (x, ' --merge-evidence' if i else '')
+                                     for i, x in enumerate([c['check']] + c.get('also', []))),
+            'thorough_cmd': ' && '.join('./run %s --tier thorough%s' % (x, ' --merge-evidence' if i else '')
+                                        for i, x in enumerate([c['check']] + c.get('also', []))),
             'evidence_file': 'evidence/%s.json' % pid,
             'replay_cmd_template': './run %s --replay {path}' % c['check'],
             'engine': c['engine'],
